@@ -5,6 +5,8 @@ import json, sys
 
 ALL = ["C%02d" % i for i in range(1, 20)]
 
+MODEL_NOTE = "Trusts go/parser, go/printer and reflection over go/ast as the definition of 'syntax tree'; the reference model (harness/ref) is an independent backtracking matcher/rewriter over canonical trees written from the property statements and docs/PatchesInDepth.md. Outcomes the property leaves open are not judged."
+
 # id -> (level category, technique, level text, level note, design ref)
 CHECKS = {
     "C08": ("exploration",
@@ -12,7 +14,37 @@ CHECKS = {
             "Every prefix of every repository patch plus thousands (quick) to millions (thorough) of generated malformed, truncated, token-mutated and ill-typed patches are run through patch.Parse/Apply behind recover and a watchdog, a sample through the CLI; any panic, hang or silent failure is a violation. Sampling cannot show absence, hence exploration.",
             "Trusts go test's process isolation and a 10 s watchdog as the definition of 'hang' on inputs of a few KB.",
             "DESIGN.md §4 C08"),
+    "C01": ("exploration",
+            "generated-input search (patterns mined from real code, planted instances and single-field near-miss mutants) against an independent reference matcher/rewriter over canonical syntax trees",
+            "Thousands (quick) to hundreds of thousands (thorough) of (patch, file) pairs: every reference site must be rewritten and nothing that is not an instance may be; discrepancies are classified and only those contradicting C01 fail this check. Sampling over an unbounded space: exploration.",
+            MODEL_NOTE, "DESIGN.md §4 C01"),
+    "C02": ("exploration",
+            "generated-input search biased to repeated and identifier metavariables with consistency/kind near-misses, against the reference matcher (strict vs metavariable-relaxed matching attributes failures)",
+            "Same machinery as C01 with patterns in which a metavariable occurs several times or is an identifier hole, and files holding consistent instances next to almost-consistent and wrong-kind near-misses; a near-miss that is rewritten, a consistent instance that is not, or a filler of another site appearing in a site fails the check.",
+            MODEL_NOTE, "DESIGN.md §4 C02"),
+    "C03": ("exploration",
+            "generated-input search (several sites with different bindings; plus sides that rename, wrap, swap, drop and duplicate metavariables) against reference instantiation of the '+' tree",
+            "At every reference site the output must equal the '+' pattern instantiated with that site's bindings (compared as canonical trees, with a print/parse round trip of the expected tree as tie-breaker); inadmissible replacements must leave the site alone.",
+            MODEL_NOTE, "DESIGN.md §4 C03"),
+    "C05": ("exploration",
+            "generated-input search on large real hosts; whole-file canonical-tree comparison of gopatch's output with the reference rewrite, imports as multiset",
+            "Whole output files (up to 400 lines of real standard-library code around 1..n sites) are compared with the reference rewrite; any difference outside the rewritten fragments fails the check.",
+            MODEL_NOTE, "DESIGN.md §4 C05"),
+    "C15": ("exploration",
+            "complete table of tree shapes x argument spellings plus generated directory trees and argument lists, against a reference walk; a non-idempotent patch makes double processing visible",
+            "A fixed 39-entry tree crossed with every target, spelling and working directory (about 1470 cases) plus generated trees/argument lists through the CLI; the set of changed files, the number of applications per file and the -v listing must equal the reference walk written from the property text.",
+            "Trusts the file-system snapshot (type, mode, size, mtime, inode, sha256) and a reference walk over the tree model; corners the statement leaves open (roots inside excluded directories, symlinked path components) are 'either'.", "DESIGN.md §4 C15"),
+    "C18": ("exploration",
+            "enumerated table of 4067 header shapes x flag x modes plus generated compositions, against a three-valued reference predicate computed by a hand-written lexer",
+            "Every header shape (marker spelling, comment style, placement) is run through the CLI with and without --skip-generated in several modes; must-skip files must be untouched and silent, must-process files must behave exactly as without the flag, the flag-off run must ignore markers.",
+            "Trusts the reference predicate written from the README wording; well-formed text in block comments / indented, and @generated outside the package doc are not judged.", "DESIGN.md §4 C18"),
+    "C19": ("exploration",
+            "generated multi-change patches with exactly one injected header/metavariable fault whose line:column the generator knows; oracle = position in the diagnostic (API and CLI)",
+            "Tens of thousands of patches with one injected fault each: patch.Parse must fail naming file:line:col of the offending token; a sample through the CLI must exit non-zero, name the patch path with the same position and leave the tree unchanged; every rejected patch must name the patch file.",
+            "Trusts the generator's own byte-accurate rendering of the patch; the fault-free twin of each case must be accepted or the case is not judged.", "DESIGN.md §4 C19"),
 }
+
+MODEL_NOTE = "Trusts go/parser, go/printer and reflection over go/ast as the definition of 'syntax tree'; the reference model (harness/ref) is an independent backtracking matcher/rewriter over canonical trees written from the property statements and docs/PatchesInDepth.md. Outcomes the property leaves open are not judged."
 
 NOT_YET = "check not built yet (work in progress in this session; see DESIGN.md §8 build order)"
 
